@@ -247,7 +247,11 @@ func (x *X) doConnect(op tr.Line) tr.Line {
 	}
 	x.pendingConn = append(x.pendingConn, cr)
 	x.mu.Unlock()
-	x.waitFor(time.Second, func() bool { return cr.entered > 0 })
+	max := time.Second
+	if x.cancelled() {
+		max = 150 * time.Millisecond
+	}
+	x.waitFor(max, func() bool { return cr.entered > 0 })
 	x.mu.Lock()
 	li := cr.li
 	x.mu.Unlock()
@@ -810,6 +814,14 @@ func (x *X) finish() []tr.Line {
 // cleanup releases everything and forces the engine down (not part of the trace).
 func (x *X) cleanup() {
 	x.mu.Lock()
+	x.endEvents = len(x.events) // the oracles judge what happened before the harness tears the case down
+	x.endWorkers = map[int]bool{}
+	for k, v := range x.workerDone {
+		x.endWorkers[k] = v
+	}
+	if !x.pinnedAtEnd {
+		x.pinnedAtEnd = x.anyPinLocked()
+	}
 	x.caseOver = true
 	if x.pinBoot {
 		x.pinBoot = false
@@ -888,9 +900,10 @@ func (x *X) oracles(w *tr.Writer) {
 		w.Fail(f[0], f[1], f[2])
 	}
 	// ---- C06
+	events := x.events[:x.endEvents]
 	retIdx := -1
 	nShutdown := 0
-	for i, e := range x.events {
+	for i, e := range events {
 		if e.kind[0] == "ret" && retIdx < 0 {
 			retIdx = i
 		}
@@ -899,17 +912,17 @@ func (x *X) oracles(w *tr.Writer) {
 		}
 	}
 	if retIdx >= 0 {
-		for _, e := range x.events[retIdx+1:] {
+		for _, e := range events[retIdx+1:] {
 			if e.isCb {
 				w.Fail("callback-after-return", strings.Join(e.kind[:1], ""), fmt.Sprintf("%v %v ran after Run/Stop had returned", e.thr, e.kind))
 				break
 			}
 		}
-		if x.events[retIdx].kind[1] != "nil" {
+		if events[retIdx].kind[1] != "nil" {
 			w.Fail("Run", "returned-error", fmt.Sprint(x.retErr))
 		}
 		opens, closes := map[string]int{}, map[string]int{}
-		for _, e := range x.events[:retIdx] {
+		for _, e := range events[:retIdx] {
 			if e.kind[0] == "open" {
 				opens[e.kind[1]]++
 			}
@@ -937,7 +950,7 @@ func (x *X) oracles(w *tr.Writer) {
 		w.Fail("OnShutdown", fmt.Sprintf("count=%d want<=1", nShutdown), "")
 	}
 	closes := map[string]int{}
-	for _, e := range x.events {
+	for _, e := range events {
 		if e.kind[0] == "close" {
 			closes[e.kind[1]]++
 			if closes[e.kind[1]] > 1 {
@@ -951,7 +964,7 @@ func (x *X) oracles(w *tr.Writer) {
 	}
 	// ---- C19
 	for k := 0; k < x.nWorkers; k++ {
-		if !x.workerDone[k] {
+		if !x.endWorkers[k] {
 			sig := "no-result"
 			if x.workerLate[k] {
 				sig = "no-result loop-exited-before-register-task"
